@@ -179,10 +179,26 @@ theorem string_sound (b : Bytes) (v : Bool) (n : Nat) (f : ValueFlags) (h : cons
     n ≤ b.length ∧ JString v (b.take n) :=
   consumeString_sound b v n f h
 
-/-- The full characterisation (all byte strings): acceptance ⇔ membership, which also gives that
-strings are prefix-free.  Only `string_sound` (⇒) is proved; ⇐ is validated by correspondence. -/
-def string_iff_full : Prop :=
-  ∀ (b : Bytes) (v : Bool) (n : Nat), (∃ f, consumeString b v = (n, f, .ok)) ↔ n ≤ b.length ∧ JString v (b.take n)
+/-- Completeness of `ConsumeString`: a string of the grammar at the start of the input is accepted, with
+exactly its length (either UTF-8 mode; in lax mode raw bytes ≥ 0x80 and unpaired surrogate escapes are chars). -/
+theorem string_complete (b : Bytes) (v : Bool) (n : Nat) (hn : n ≤ b.length) (h : JString v (b.take n)) :
+    ∃ f, consumeString b v = (n, f, .ok) :=
+  consumeString_complete b v n hn h
+
+/-- `ConsumeString(b, validateUTF8)` accepts `n` bytes ⇔ the first `n` bytes are a string of the grammar
+(all byte strings, both UTF-8 modes).  In particular a surrogate escape is accepted under strict
+UTF-8 only as the first half of a high/low pair. -/
+theorem string_iff (b : Bytes) (v : Bool) (n : Nat) :
+    (∃ f, consumeString b v = (n, f, .ok)) ↔ n ≤ b.length ∧ JString v (b.take n) :=
+  ⟨fun ⟨f, h⟩ => consumeString_sound b v n f h, fun ⟨hn, h⟩ => consumeString_complete b v n hn h⟩
+
+/-- strings are prefix-free (so the end of a string is determined by the grammar alone) -/
+theorem string_prefix_free (v : Bool) (p q : Bytes) (hp : JString v p) (hq : JString v q) (hpq : p <+: q) : p = q :=
+  jstring_prefix_free v p q hp hq hpq
+
+-- a low surrogate escape followed by a low surrogate escape is rejected by the model in strict mode
+example : consumeString [0x22, 0x5C, 0x75, 0x64, 0x65, 0x61, 0x64, 0x5C, 0x75, 0x64, 0x65, 0x61, 0x64, 0x22] true
+    = (1, ⟨true, true⟩, .invalidEscape) := by decide
 
 -- `"a\u00e9"` + `,` : 10 bytes accepted, non-verbatim (flag 1) and non-canonical (flag 2: é must not be escaped)
 example : consumeString [0x22, 0x61, 0x5C, 0x75, 0x30, 0x30, 0x65, 0x39, 0x22, 0x2C] true = (9, ⟨true, true⟩, .ok) := by decide
